@@ -1,11 +1,12 @@
 import Rustic.Model.Config
 import Driver.Util
 /- Channel `c18` (generator side: harness/src/c18.rs):
-   c18 apply <cfg> <opts>            -> ok <cfg'> | err:<Kind>            ConfigOptions::apply
+   c18 apply <cfg> <opts>            -> ok <cfg'> | err:<Kind> | <cfg as left>   ConfigOptions::apply on its &mut target
    c18 rabin <size> <min> <max>      -> ok | err:Unsupported              check_rabin_params
    c18 getters <cfg>                 -> ok <chunker> <size> <min> <max> <ev> <zstd> <tree packsize> <data packsize> <pcts>
    c18 packsize <cfg> <t|d> <cur>    -> ok <u32>                          PackSizer::from_config(..).pack_size()
    c18 seq <opts>;<opts>;…           -> ok <step>,… | <final cfg> | writes=<n>    init + apply_config sequence
+   c18 seq1 <opts>;<opts>;…          -> the same line; every apply_config on ONE open handle (handle_config_follows_store_seq)
    c18 smoke <opts>[;<opts>…] <mu> <mr> <r|-> <seed>  -> ok | err:<Kind>  init (→ apply_config …) → backup → check → restore → prune
    c18 limits <mu> <mr> <flags> <packs>  -> ok <max_unused> <max_repack> <used> <total>   limits computed in decide_repack
    cfg / opts = comma list of key=value ("-" = nothing set); see `cfgKeys`. -/
@@ -124,9 +125,10 @@ def handle : List String → String
   | ["apply", cfg, opts] =>
     match parseCfg cfg, parseOpts opts with
     | some c, some o =>
-      match apply o c with
-      | .ok c' => "ok " ++ showCfg c'
-      | .error e => showFail e
+      -- the `&mut` target as `apply` leaves it: the result on success, partly assigned on `Err`
+      match applyMut o c with
+      | (c', none) => "ok " ++ showCfg c'
+      | (c', some e) => showFail e ++ " | " ++ showCfg c'
     | _, _ => "bad-op"
   | ["rabin", size, mn, mx] =>
     match size.toNat?, mn.toNat?, mx.toNat? with
@@ -152,7 +154,7 @@ def handle : List String → String
     | some c, some cur =>
       if bt = "t" ∨ bt = "d" then s!"ok {(PackSizer.fromConfig c (bt == "t") cur).packSize}" else "bad-op"
     | _, _ => "bad-op"
-  | ["seq", steps] =>
+  | ["seq", steps] | ["seq1", steps] =>
     match (steps.splitOn ";").mapM parseOpts with
     | some (o0 :: os) =>
       match initConfig 0 0 o0 with
